@@ -37,8 +37,11 @@ type Verifier struct {
 	contractSource  map[string]string // package path -> "repo" | "mirror"
 	loadSeconds     float64
 	tableMode       string // "pinned" or "extracted"
+	svcTypes        map[string]*types.Named
+	checkAlloc      bool
+	tblTerms        map[string]tblRef
 	extracted       map[string]*ExtractedTable
-	initHooks       []func(x *Exec, st *State, o *Obj, k, bv *Term, val Value)
+	initHooks       []func(x *Exec, st *State, o *Obj, k Value, bv *Term, val Value)
 }
 
 type TableInfo struct {
@@ -67,7 +70,7 @@ func (V *Verifier) noteGlobal(fn, global, how string) {
 	V.globalAccess[fn][global][how] = true
 }
 
-func (V *Verifier) noteMapUpdate(x *Exec, st *State, o *Obj, k, bv *Term, val Value) {
+func (V *Verifier) noteMapUpdate(x *Exec, st *State, o *Obj, k Value, bv *Term, val Value) {
 	for _, h := range V.initHooks {
 		h(x, st, o, k, bv, val)
 	}
@@ -113,7 +116,7 @@ func LoadVerifier(repo, verifDir string) (*Verifier, error) {
 	V := &Verifier{repo: repo, verifDir: verifDir, pkgs: map[string]*ssa.Package{}, lpkgs: map[string]*packages.Package{},
 		files: map[string]*ContractFile{}, contracts: map[string]*FuncContract{}, tableFuncs: map[string]*TableInfo{}, tables: map[string]*TableInfo{},
 		assumptionsUsed: map[string]bool{}, trustedUsed: map[string]bool{}, globalAccess: map[string]map[string]map[string]bool{},
-		holeRes: map[string]map[string]string{}, globals: map[*ssa.Global]*Obj{}, contractSource: map[string]string{}, extracted: map[string]*ExtractedTable{}}
+		holeRes: map[string]map[string]string{}, tblTerms: map[string]tblRef{}, globals: map[*ssa.Global]*Obj{}, contractSource: map[string]string{}, extracted: map[string]*ExtractedTable{}}
 	cfg := &packages.Config{
 		Mode:       packages.LoadAllSyntax,
 		Dir:        repo,
@@ -364,6 +367,13 @@ func (V *Verifier) VerifyFunction(tg FuncTarget, only map[string]bool) []*Obliga
 			if beh == nil {
 				x.lockReturn(s)
 			}
+			if beh == nil && fc.Pure {
+				for o, c0 := range x.old.heap {
+					if o.Kind == "buffer" && c0.Seq != nil {
+						x.oblige(s, "ensures", "pure/buffer-unchanged("+o.Name+")@"+pathTag(s), Eq(s.get(o).Seq, c0.Seq), "a pure function neither consumes nor modifies the buffer it is given")
+					}
+				}
+			}
 		}
 		if !bad {
 			x.execAll(st)
@@ -554,10 +564,17 @@ func (x *Exec) applyContract(st *State, fc *FuncContract, origin *ssa.Function, 
 			st.assume(t)
 		}
 	}
+	matched := map[string]bool{}
 	for _, b := range fc.Behaviors {
 		binds := map[string]*Term{}
 		if len(b.Ghosts) > 0 {
 			binds = x.bindGhosts(st, pre, cx, fc, b, res, in)
+			matched[b.Name] = true
+			for _, t := range binds {
+				if t.Op == "var" && strings.HasPrefix(t.Name, "unmatched_") {
+					matched[b.Name] = false
+				}
+			}
 		}
 		bev := cx.evaluator(st)
 		bev.results = res
@@ -591,7 +608,63 @@ func (x *Exec) applyContract(st *State, fc *FuncContract, origin *ssa.Function, 
 			if x.assumeBeh != nil {
 				x.assumeBeh(st, fc, b, in, hyp)
 			}
-			st.assume(Implies(hyp, And(es...)))
+			all := true
+			var missing []*Term
+			for _, p := range conjuncts(hyp) {
+				if st.implied(p) != 1 {
+					all = false
+					missing = append(missing, p)
+				}
+			}
+			if !all && x.rtMode && len(b.Ghosts) > 0 && matched[b.Name] {
+				// round-trip chaining: the callee's rt behaviour is the one that applies; its domain is an obligation here
+				for i, p := range missing {
+					x.oblige(st, "pre", fmt.Sprintf("%s/%s/assumes#%d", label, b.Name, i+1), p, "domain of the reader's "+b.Name+" behaviour at this call")
+					st.assume(p)
+				}
+				all = true
+			}
+			if all {
+				st.assume(And(es...))
+			} else {
+				st.assume(Implies(hyp, And(es...)))
+			}
+		}
+	}
+	x.normalizeBuffers(st)
+	for i, r := range res {
+		best := func(v *Term) *Term {
+			var b *Term
+			for _, p := range st.pc {
+				if p.Op == "=" && Same(p.Args[0], v) && !mentions(p.Args[1], v.Name) {
+					if b == nil || len(p.Args[1].Key()) < len(b.Key()) {
+						b = p.Args[1]
+					}
+				}
+			}
+			return b
+		}
+		if iv, ok := r.(VInt); ok && iv.T.Op == "var" {
+			if b := best(iv.T); b != nil {
+				res[i] = VInt{b}
+			}
+		}
+		if sv, ok := r.(VStr); ok && sv.T.Op == "var" {
+			if b := best(sv.T); b != nil {
+				res[i] = VStr{b}
+			}
+		}
+		if sl, ok := r.(VSlice); ok {
+			if c := st.get(sl.Arr).Seq; c != nil && c.Op == "var" {
+				for _, p := range st.pc {
+					if p.Op == "=" && Same(p.Args[0], c) && !mentions(p.Args[1], c.Name) {
+						st.mut(sl.Arr).Seq = p.Args[1]
+						nl := Len(p.Args[1])
+						res[i] = VSlice{Arr: sl.Arr, Lo: IntC(0), Hi: nl, Cap: nl, IsNil: sl.IsNil, Elem: sl.Elem}
+						break
+					}
+				}
+			}
 		}
 	}
 	if len(fc.Alloc) > 0 {
@@ -625,6 +698,53 @@ func (x *Exec) applyContract(st *State, fc *FuncContract, origin *ssa.Function, 
 	}
 	x.recordCall(st, fc, cx, origin, args, res, in, pre)
 	return x.resultOf(cc, res...)
+}
+
+// normalizeBuffers makes an unconditional assumption  buf.u == <structured term>  the buffer's content.
+func (x *Exec) normalizeBuffers(st *State) {
+	for o, c := range st.heap {
+		if o.Kind != "buffer" || c.Seq == nil || c.Seq.Op != "var" {
+			continue
+		}
+		var best *Term
+		bestPieces := 1 << 30
+		for _, p := range st.pc {
+			if p.Op != "=" || p.Args[0].Sort != SSeq {
+				continue
+			}
+			var cand *Term
+			if Same(p.Args[0], c.Seq) && !mentions(p.Args[1], c.Seq.Name) {
+				cand = p.Args[1]
+			} else if Same(p.Args[1], c.Seq) && !mentions(p.Args[0], c.Seq.Name) {
+				cand = p.Args[0]
+			}
+			if cand == nil {
+				continue
+			}
+			// prefer the fully structured description over one that contains an unknown piece
+			n := 0
+			fv := map[string]*Term{}
+			FreeVars(cand, fv)
+			for k := range fv {
+				if strings.HasPrefix(k, "piece!") {
+					n++
+				}
+			}
+			if n < bestPieces {
+				best, bestPieces = cand, n
+			}
+		}
+		if best != nil {
+			st.mut(o).Seq = best
+		}
+	}
+}
+
+func mentions(t *Term, name string) bool {
+	fv := map[string]*Term{}
+	FreeVars(t, fv)
+	_, ok := fv[name]
+	return ok
 }
 
 // bindGhosts chooses the logical parameters of a callee behaviour: explicitly (call clause of the
